@@ -5,6 +5,7 @@ import LeptosModel.Proofs.RViewQuiet
 import LeptosModel.Proofs.RViewMRun
 import LeptosModel.Proofs.RViewErrb
 import LeptosModel.Proofs.SViewLoaded
+import LeptosModel.Proofs.RViewMSettleE
 /-!
 # C04 — a mounted reactive view always settles to the render of current state
 
@@ -229,6 +230,29 @@ theorem C04_errb_render (ρ : Nat → Int) (kid : View) :
     render ρ (.eb kid) =
       if errL ρ (fun _ _ => none) kid [] 0 [] then [.text (.lit "error")]
       else renderL ρ (fun _ _ => none) kid [] 0 [] := rfl
+
+/-- **`<ErrorBoundary>` settles**: for every program (signals and memos) whose view is a boundary over static
+structure with dynamic text, reactive attributes / classes / styles and `Result` leaves (`res c x`: `Err` while
+`c ≠ 0`), every leaf over signals AND memos, and EVERY history — writes to the program's signals, polls of any
+ready task in any order (a leaf's effect before or after the boundary's, the boundary's before the leaves have
+caught up, …), `idle` runs —: at every idle point the DOM is the from-scratch render: the fallback iff some
+`Result` is `Err` for the current values, otherwise the children with every leaf at its current value.
+
+Proof: the boundary's register and memo are two more definitions; a registration (`bump`) is a signal write in
+the middle of a re-run, under which the reactive core's invariant `TopC` is kept (`setSigM`: `Proofs/RViewMErrb.lean`,
+`rerunOK_eb`, `InvDM.startE`); the register is the number of leaves in error through every build, write and poll
+(`Proofs/RViewMCount.lean`, `RViewMCountB.lean`; the reactive operations never write a signal:
+`Proofs/RViewSigVal.lean`); at an idle point every effect has stored the from-scratch value of its body
+(`Proofs/RViewMSettleE.lean`). -/
+theorem C04_errb_settles (defs : Prog) (kid : View) (ops : List Op) (hd : defsOk defs = true)
+    (hw : kid.wfR defs.length = true) (hl : kid.leavesR = true) (hops : opsOk defs.length ops)
+    (hdis : (run { defs := defs, view := .eb kid } ops).disposed = false)
+    (hidle : ready (run { defs := defs, view := .eb kid } ops) = []) :
+    (run { defs := defs, view := .eb kid } ops).dom =
+      render (run { defs := defs, view := .eb kid } ops).env (.eb kid) := by
+  rcases InvE.run hd hw hl ops hops with h | h
+  · rw [h.1] at hdis; cases hdis
+  · exact InvE.settled h.2.1 h.2.2 hl hw hidle
 
 /-- the special case of views without `either` (kept: `C04_untouched_nodes` is proved for this class) -/
 theorem C04_settles_leaves (p : Program) (ops : List Op) (hw : p.wf = true) (hs : allSigs p.defs = true)
@@ -485,6 +509,28 @@ example :
       ready (run ebProg ops) = [] ∧ (run ebProg ops).dom = render (run ebProg ops).env ebProg.view) := by
   decide +kernel
 
+/-! non-vacuity of `C04_errb_settles`: two failing leaves over a signal and a memo, a dynamic text and a reactive
+class below the boundary; the hypotheses hold; the boundary's effect is polled BEFORE the recovering leaf's (the
+fallback stays: the register is still 1), then the leaf; in the end the children with current values -/
+
+def ebLeafProg : Program :=
+  { defs := [.sig 1, .sig 1, .memo (.add (.rd true 0) (.rd true 1))],
+    view := .eb (.elem "div" [.cls "on" (.rd true 1)]
+      (.seq (.res (.rd true 0) (.lit 1)) (.seq (.res (.add (.rd true 2) (.lit (-1))) (.rd true 2)) (.dynText (.rd true 2))))) }
+
+example :
+    defsOk ebLeafProg.defs = true ∧
+    (match ebLeafProg.view with | .eb kid => kid.wfR 3 && kid.leavesR | _ => false) = true ∧
+    ready (run ebLeafProg [.idle, .set 0 0, .idle]) = [] ∧
+    (run ebLeafProg [.idle, .set 0 0]).dom = [.text (.lit "error")] ∧
+    (run ebLeafProg [.idle, .set 0 0, .idle]).dom =
+      [.open "div" [.cls "on" true], .text (.int 1), .text (.int 1), .text (.int 1), .close] ∧
+    (run ebLeafProg [.idle, .set 0 0, .idle]).dom = render (run ebLeafProg [.idle, .set 0 0, .idle]).env ebLeafProg.view ∧
+    (run ebLeafProg [.idle, .set 0 0, .idle, .set 1 3, .idle]).dom = [.text (.lit "error")] ∧
+    (run ebLeafProg [.idle, .set 0 0, .idle, .set 1 3, .idle]).dom =
+      render (run ebLeafProg [.idle, .set 0 0, .idle, .set 1 3, .idle]).env ebLeafProg.view := by
+  decide +kernel
+
 /-! non-vacuity: a program with a reactive attribute, class, style and two dynamic texts with a
 dynamic dependency; a history with partial polling; the hypotheses hold, the DOM changes -/
 
@@ -511,9 +557,9 @@ example :
     ((run exProg [.idle]).rs.get 5).sources = [1, 0] ∧
     writes [Op.set 0 5, Op.idle] = [0] ∧
     (run exProg [.idle]).nodes =
-      [(⟨0, 1⟩, []), (⟨1, 6⟩, [2, 3, 4]), (⟨2, 0⟩, [5]), (⟨3, 0⟩, []), (⟨4, 0⟩, [6])] ∧
+      [(⟨0, 1⟩, []), (⟨1, 5⟩, [2, 3, 4]), (⟨2, 0⟩, [5]), (⟨3, 0⟩, []), (⟨4, 0⟩, [6])] ∧
     (run exProg ([.idle] ++ [.set 0 5, .idle])).nodes =
-      [(⟨0, 1⟩, []), (⟨1, 8⟩, [2, 3, 4]), (⟨2, 1⟩, [5]), (⟨3, 0⟩, []), (⟨4, 0⟩, [6])] := by decide +kernel
+      [(⟨0, 1⟩, []), (⟨1, 7⟩, [2, 3, 4]), (⟨2, 1⟩, [5]), (⟨3, 0⟩, []), (⟨4, 0⟩, [6])] := by decide +kernel
 
 end Leptos.RView
 
